@@ -30,7 +30,11 @@ def run_one(patch, prop, runs, keep_log=False, tier='quick'):
         diff = subprocess.run(['git', '-C', REPO, 'diff', 'HEAD'], capture_output=True, text=True).stdout
         if diff.strip():
             subprocess.run(['git', '-C', wt, 'apply'], input=diff, text=True, check=True)
-        subprocess.run(['git', '-C', wt, 'apply', os.path.abspath(patch)], check=True)
+        ap = subprocess.run(['git', '-C', wt, 'apply', os.path.abspath(patch)], capture_output=True, text=True)
+        if ap.returncode != 0:
+            return {'patch': patch, 'property': prop, 'exit': 3, 'violations': 0, 'groups': [], 'first': None,
+                    'kept_replay': None, 'wall_s': 0.0, 'tail': None,
+                    'stderr': 'patch does not apply to the current tree: ' + ap.stderr[-300:]}
         env = dict(os.environ)
         env['VERIF_REPO'] = wt
         env.pop('VERIF_REEXEC', None)
